@@ -103,6 +103,27 @@ func c08Subset9(r *rand.Rand, xs []string, p float64) []string {
 	return out
 }
 
+// c09GenCIStateConfig (for `pint ci` scenarios that keep an untouched file): every block has a match block whose EXPLICIT
+// state covers unmodified rules (any / unmodified / unmodified+added) — optionally with one more condition — next to an
+// ignore block WITHOUT state whose single condition often holds: ignore blocks get no default state, so they fire for
+// untouched rules too.
+func c09GenCIStateConfig(r *rand.Rand, k int) string {
+	var b strings.Builder
+	for i := 0; i < k; i++ {
+		st := pick(r, []string{"[\"any\"]", "[\"unmodified\"]", "[\"unmodified\", \"added\"]", "[\"unmodified\", \"modified\"]", "[\"added\"]"})
+		b.WriteString("rule {\n  match {\n    state = " + st + "\n")
+		if r.Intn(3) == 0 {
+			b.WriteString(c09OneCond(r, pick(r, []string{"kind", "name", "path", "label"})))
+		}
+		b.WriteString("  }\n")
+		if r.Intn(4) > 0 {
+			b.WriteString("  ignore {\n" + c09OneCond(r, pick(r, []string{"kind", "name", "path", "label", "annotation", "for", "command"})) + "  }\n")
+		}
+		b.WriteString(c09Marker(r, i))
+	}
+	return b.String()
+}
+
 // c09Marker: the marker check of block i.  Usually `label "marker_i"` (a String() of its own); with probability 1/4 a
 // later block carries the IDENTICAL check of an earlier block (same String(), same comment): such blocks form a group and
 // the marker problem must be reported iff ANY block of the group applies (GetChecksForEntry enables a check identity once).
@@ -934,7 +955,14 @@ func c09Binary(r *rand.Rand, rep *runReport, cwd string, n int) {
 			// one condition kind per rule block, rotating over the nine kinds; files with several labels/annotations per rule
 			sc.Config = c09GenFocusConfig(r, 3+r.Intn(3), i/2*5)
 		}
-		for _, p := range c09Paths[:1+r.Intn(3)] {
+		nf := 1 + r.Intn(3)
+		if i%4 == 3 {
+			// pint ci with untouched rules (the first file is committed on the base branch) and explicit states
+			sc.Cmd = "ci"
+			sc.Config = c09GenCIStateConfig(r, 3+r.Intn(3))
+			nf = 2 + r.Intn(2)
+		}
+		for _, p := range c09Paths[:nf] {
 			if focused {
 				sc.Files = append(sc.Files, c09GenFileRich(r, p, r.Intn(3) == 0))
 			} else {
